@@ -1,7 +1,7 @@
 #!/bin/bash
 # runs every registered quick (or thorough) check on /repo as it is; prints one line per check
 tier=${1:-quick}
-cd /verif
+cd "$(dirname "$(readlink -f "$0")")/.."
 for p in $(python3 -c "import json;print(' '.join(c['property_id'] for c in json.load(open('MANIFEST.json'))['checks']))"); do
   s=$(date +%s)
   out=$(PYTHONHASHSEED=0 PYTHONDONTWRITEBYTECODE=1 /venv/bin/python -m vf.run $p --tier $tier 2>&1); rc=$?
